@@ -202,11 +202,27 @@ func c18Round(c *core.Case) (overlap bool, err error) {
 	if len(c.Ints) < 5 || len(c.Steps) == 0 {
 		return false, fmt.Errorf("bad case")
 	}
+	// The shared inputs are ADJACENT views of one backing array (records cut out of one read
+	// buffer by plain slicing): docs[i] ends exactly where docs[i+1] begins and its capacity
+	// extends over everything behind it, so a callee that touches memory past len(data) - even
+	// transiently - writes into another goroutine's read-only input.
 	docs := make([][]byte, len(c.Steps))
 	snaps := make([][]byte, len(c.Steps))
+	total := 0
 	for i := range c.Steps {
-		docs[i] = []byte(c.Steps[i].In)
+		total += len(c.Steps[i].In)
+	}
+	arena := make([]byte, 0, total+16)
+	for i := range c.Steps {
+		arena = append(arena, c.Steps[i].In...)
+	}
+	arena = append(arena, "   \n\t 1 "...) // whitespace behind the last record too
+	off := 0
+	for i := range c.Steps {
+		n := len(c.Steps[i].In)
+		docs[i] = arena[off : off+n] // capacity deliberately not clipped
 		snaps[i] = append([]byte(nil), docs[i]...)
+		off += n
 	}
 	ng, procs, stride := int(c.Ints[0]), int(c.Ints[1]), int(c.Ints[2])
 	type op struct{ fn, doc int }
